@@ -31,19 +31,8 @@ EXPECTED = [
 
 
 def build(S, tier, seed):
-    S.install(loops={dates.PARSE_LOOP: dates.parse_loop_annot()})
-    S.verify(dates.OlderThan())
+    purge.leaf_vcs(S)
     S.verify(dates.OlderThanCanary(), prefix='canary/older_than')
-    for r in ('canary/older_than/post/canary-not-strict',):
-        pass
-    S.verify(dates.ParseDeletionDate())
-    S.verify(dates.ClockNow())
-    deps = [dates.ParseDeletionDate(), dates.ClockNow(), dates.OlderThan()]
-    S.install(deps)
-    S.verify(purge.OkToDelete(), active=[c.key for c in deps])
-    S.verify(purge.PathOfBackupCopy())
-    S.install([purge.RemoveFile2()])
-    S.verify(purge.RemoveFileIfExists(), active=[purge.RemoveFile2().key])
     purge.empty_vc(S, dry_run=False)
     for o in S.obligations:
         if o.name.startswith('canary/'):
